@@ -39,8 +39,40 @@ class ValidatorAnalysis:
 
     def __init__(self, facts):
         self.facts = facts
-        self.alpha = base_alphabet()
         self.runs = 0
+        self.opaque_names = {"schwifty.checksum.numerify"}
+        self._summaries = None
+        raws = self._seed_raws()
+        raws += [s_["raw"] for s_ in self.summaries().values()]
+        self.alpha = base_alphabet(raws)
+
+    def _seed_raws(self):
+        """Character classes of every regex literal / table regex in play, so that the alphabet is final up front."""
+        import ast
+        from .relang import Regex
+        from .values import RegexVal
+        pats = set()
+        try:
+            for spec in self.facts.iban_table().values():
+                if isinstance(spec, dict):
+                    for v in spec.values():
+                        if isinstance(v, RegexVal):
+                            pats.add((v.pattern, v.flags))
+        except AnalysisError:
+            pass
+        for mod in self.facts.program.modules.values():
+            for n in ast.walk(mod.tree):
+                if isinstance(n, ast.Call) and isinstance(n.func, ast.Attribute) and n.func.attr in (
+                        "match", "fullmatch", "search", "compile", "sub") and n.args and \
+                        isinstance(n.args[0], ast.Constant) and isinstance(n.args[0].value, str):
+                    pats.add((n.args[0].value, 0))
+        raws = []
+        for p, fl in sorted(pats):
+            try:
+                raws.extend(Regex(p, fl).raws)
+            except AnalysisError:
+                continue
+        return raws
 
     def _with_refinement(self, fn):
         for _ in range(12):
@@ -49,6 +81,19 @@ class ValidatorAnalysis:
             except NeedRefine as e:
                 self.alpha = self.alpha.refined(e.raw)
         raise AnalysisError("alphabet refinement does not converge")
+
+    def summaries(self):
+        """Per-character string functions that stay opaque on symbolic text (today: numerify)."""
+        if getattr(self, "_summaries", None) is None:
+            from .vmodel import safe_raw, string_function_summary
+            out = {}
+            for q in sorted(self.opaque_names):
+                if self.facts.program.find(q) is not None:
+                    s = string_function_summary(self.facts, q)
+                    s["raw"] = safe_raw(s)
+                    out[q] = s
+            self._summaries = out
+        return self._summaries
 
     def theory(self):
         return StringTheory(self.alpha, clean_universe(self.alpha))
@@ -65,6 +110,13 @@ class ValidatorAnalysis:
             self.runs += 1
             th = self.theory()
             it = self.facts.interp(theory=th, max_paths=max_paths)
+            for q, summ in self.summaries().items():
+                th.safe_raws[q] = (summ["raw"], summ["empty_exc"] is None)
+                exc = next(iter(summ["unsafe"].values()), None) or summ["empty_exc"]
+                if exc is not None:
+                    it.opaque_summaries[q] = {"exc": exc}
+                else:
+                    it.opaque_summaries[q] = {"exc": None}
             for q, f in (intrinsics or {}).items():
                 it.intrinsics[q] = f
             if prepare:
@@ -95,6 +147,20 @@ class ValidatorAnalysis:
             except PathLimit as e:
                 raise AnalysisError(f"{cls.short}.{entry}: {e}")
             self.last_interp = it
+            new = set()
+            for o in outs:
+                for e in o.events:
+                    if e["kind"] == "unsummarised_opaque":
+                        new.add(e["func"])
+            if new - self.opaque_names:
+                # a per-character string function turned opaque on symbolic text: summarise it and run again
+                self.opaque_names |= new
+                self._summaries = None
+                return None
             return [VPath(o) for o in outs if o.kind != "infeasible"]
 
-        return self._with_refinement(run)
+        for _ in range(4):
+            res = self._with_refinement(run)
+            if res is not None:
+                return res
+        raise AnalysisError("opaque string functions keep appearing")
